@@ -1042,15 +1042,16 @@ Proof.
   - apply error_leaves_state in H. subst s'. exact W.
 Qed.
 
-Fixpoint run (e : env) (s : state) (h : list (addr * msg)) : state :=
+(* a history: any sequence of messages from any senders, each with its own outcome of the unmodelled arithmetic *)
+Fixpoint run (s : state) (h : list (env * addr * msg)) : state :=
   match h with
   | [] => s
-  | (a, m) :: r => run e (fst (step e s a m)) r
+  | (e, a, m) :: r => run (fst (step e s a m)) r
   end.
 
-Lemma run_wf e h : forall s, wf s -> wf (run e s h).
+Lemma run_wf h : forall s, wf s -> wf (run s h).
 Proof.
-  induction h as [|[a m] r IH]; intros s W; cbn [run]; [exact W|].
+  induction h as [|[[e a] m] r IH]; intros s W; cbn [run]; [exact W|].
   apply IH. destruct (step e s a m) as [s1 x] eqn:E. eapply step_wf; eauto.
 Qed.
 
